@@ -801,8 +801,9 @@ func (u *U) lpMsgSection() {
 		if err != nil || !found {
 			continue
 		}
-		for _, ab := range amounts {
-			for _, aq := range amounts {
+		// negative amounts too: the handler adds them to what the full withdrawal of the position returned before it validates
+		for _, ab := range append([]int64{-1, -1_000_000_000_000_000}, amounts...) {
+			for _, aq := range append([]int64{-1, -1_000_000_000_000_000}, amounts...) {
 				u.execMsg("/sunrise.liquiditypool.v1.MsgIncreaseLiquidity", &lptypes.MsgIncreaseLiquidity{Sender: pos.Address, Id: id,
 					AmountBase: sdkmath.NewInt(ab), AmountQuote: sdkmath.NewInt(aq), MinAmountBase: sdkmath.ZeroInt(), MinAmountQuote: sdkmath.ZeroInt()})
 				n++
